@@ -152,6 +152,10 @@ func segmentFMP4ReadHeader(r io.ReadSeeker) (*fmp4.Init, time.Duration, error) {
 		return nil, 0, err
 	}
 
+	if mvhd.Timescale == 0 {
+		return nil, 0, fmt.Errorf("invalid mvhd timescale")
+	}
+
 	d := time.Duration(mvhd.DurationV0) * time.Second / time.Duration(mvhd.Timescale)
 
 	// read ftyp and moov
@@ -330,6 +334,10 @@ outer:
 
 		tfhdSize := uint32(buf[0])<<24 | uint32(buf[1])<<16 | uint32(buf[2])<<8 | uint32(buf[3])
 
+		if tfhdSize < 8 {
+			return 0, fmt.Errorf("invalid tfhd box size")
+		}
+
 		buf2 := make([]byte, tfhdSize-8)
 
 		_, err = io.ReadFull(r, buf2)
@@ -361,6 +369,10 @@ outer:
 
 		tfdtSize := uint32(buf[0])<<24 | uint32(buf[1])<<16 | uint32(buf[2])<<8 | uint32(buf[3])
 
+		if tfdtSize < 8 {
+			return 0, fmt.Errorf("invalid tfdt box size")
+		}
+
 		buf2 = make([]byte, tfdtSize-8)
 
 		_, err = io.ReadFull(r, buf2)
@@ -386,6 +398,10 @@ outer:
 		}
 
 		trunSize := uint32(buf[0])<<24 | uint32(buf[1])<<16 | uint32(buf[2])<<8 | uint32(buf[3])
+
+		if trunSize < 8 {
+			return 0, fmt.Errorf("invalid trun box size")
+		}
 
 		buf2 = make([]byte, trunSize-8)
 
@@ -455,6 +471,10 @@ func segmentFMP4MuxParts(
 			}
 			tfdt = box.(*amp4.Tfdt)
 
+			if tfhd == nil {
+				return nil, fmt.Errorf("tfdt box found before tfhd box")
+			}
+
 			track := findInitTrack(tracks, int(tfhd.TrackID))
 			if track == nil {
 				return nil, fmt.Errorf("invalid track ID: %v", tfhd.TrackID)
@@ -471,6 +491,10 @@ func segmentFMP4MuxParts(
 				return nil, err
 			}
 			trun := box.(*amp4.Trun)
+
+			if tfhd == nil || tfdt == nil {
+				return nil, fmt.Errorf("trun box found before tfhd and tfdt boxes")
+			}
 
 			dataOffset := moofOffset + uint64(trun.DataOffset)
 			dts := int64(tfdt.BaseMediaDecodeTimeV1) + startDTSMP4
